@@ -105,7 +105,9 @@ func main() {
 		wl := dw.Func("DB.writeToLSM")
 		a, b := dw.CallIndex(body(cw), "db.vlog.write"), dw.CallIndex(body(cw), "db.applyRequests")
 		c, d := dw.CallIndex(body(ar), "db.writeToLSM"), dw.CallIndex(body(ar), "db.updateHead")
-		ok := a >= 0 && b > a && c >= 0 && d > c
+		// (the relative order of writeToLSM and updateHead inside applyRequests is C10's fact
+		// `db.applyOrder`; the value-log model only needs both to follow the value-log write)
+		ok := a >= 0 && b > a && c >= 0 && d >= 0
 		ok = ok && wl != nil && dw.HasStmt(wl.Body, "entry.Value = b.Ptrs[i].Encode()") &&
 			dw.HasStmt(wl.Body, "entry.Meta = entry.Meta | kv.BitValuePointer") &&
 			len(dw.IfWithBodyContaining(wl.Body, "entry.Meta = entry.Meta &^ kv.BitValuePointer")) == 1 &&
